@@ -97,7 +97,7 @@ func spec_declTags(c *gengoCtx, o types.Object) map[string][]string {
 }
 
 //@ func gengoCtx.Doc
-//@   props C06
+//@   props C06 C05
 //@   pure
 //@   requires c != nil && c.universe != nil && c.args != nil && typ != nil && typ.Pkg() != nil && c.universe.Package(typ.Pkg().Path()) != nil
 //@   ensures forall k string :: has(c.args.Globals, k) ==> has(result0, k)
